@@ -1042,6 +1042,119 @@ func bxvHiddenCases(fails *[]bxvFailure) int {
 	return n
 }
 
+// C10: creating an evaluator is total on arbitrary bytes; evaluator xor error;
+// Parse accepts exactly what CreateEvaluator accepts; the result is usable.
+var bxvTokens = []string{"a", "b.c", "not", "and", "or", "in", "is", "empty", "contains", "matches", "any", "all", "as", "_", ",", "{", "}", "(", ")", "[", "]", "==", "!=",
+	"1", "-1", "1.5", "01", "1.", "\"x\"", "`y`", "\"/a/b\"", "\"\"", "\"\\q\"", "\"x", "`y", "x[\"k\"]", "x[`k`]", "x[", " ", "\t", "\n", "\xff", "\x00", "é"}
+
+func bxvParseOne(in string, fails *[]bxvFailure) {
+	var pval interface{}
+	var perr error
+	func() {
+		defer func() {
+			if r := recover(); r != nil {
+				*fails = append(*fails, bxvFailure{Kind: "panic", Expr: strconv.Quote(in), Datum: "-", Got: "grammar.Parse panicked: " + fmt.Sprint(r)})
+			}
+		}()
+		pval, perr = grammar.Parse("", []byte(in))
+	}()
+	var ev *Evaluator
+	var cerr error
+	func() {
+		defer func() {
+			if r := recover(); r != nil {
+				*fails = append(*fails, bxvFailure{Kind: "panic", Expr: strconv.Quote(in), Datum: "-", Got: "CreateEvaluator panicked: " + fmt.Sprint(r)})
+			}
+		}()
+		ev, cerr = CreateEvaluator(in)
+	}()
+	if (ev != nil) == (cerr != nil) {
+		*fails = append(*fails, bxvFailure{Kind: "mismatch", Expr: strconv.Quote(in), Datum: "-", Got: fmt.Sprintf("CreateEvaluator returned (%v, %v)", ev != nil, cerr), Want: "evaluator xor error"})
+	}
+	if (perr == nil) != (cerr == nil) {
+		*fails = append(*fails, bxvFailure{Kind: "mismatch", Expr: strconv.Quote(in), Datum: "-", Got: fmt.Sprintf("grammar.Parse err=%v, CreateEvaluator err=%v", perr, cerr), Want: "both accept or both reject"})
+	}
+	if perr == nil {
+		if _, ok := pval.(grammar.Expression); !ok {
+			*fails = append(*fails, bxvFailure{Kind: "mismatch", Expr: strconv.Quote(in), Datum: "-", Got: fmt.Sprintf("Parse returned %T without error", pval), Want: "an Expression"})
+		}
+	}
+	func() {
+		defer func() {
+			if r := recover(); r != nil {
+				*fails = append(*fails, bxvFailure{Kind: "panic", Expr: strconv.Quote(in), Datum: "-", Got: "CreateFilter panicked: " + fmt.Sprint(r)})
+			}
+		}()
+		f, ferr := CreateFilter(in)
+		if in == "" {
+			if f != nil || ferr != nil {
+				*fails = append(*fails, bxvFailure{Kind: "mismatch", Expr: `""`, Datum: "-", Got: fmt.Sprint(f, ferr), Want: "nil filter, nil error"})
+			}
+		} else if (f != nil) == (ferr != nil) || (ferr == nil) != (cerr == nil) {
+			*fails = append(*fails, bxvFailure{Kind: "mismatch", Expr: strconv.Quote(in), Datum: "-", Got: fmt.Sprintf("CreateFilter returned (%v, %v), CreateEvaluator err=%v", f != nil, ferr, cerr), Want: "filter xor error, same verdict as CreateEvaluator"})
+		}
+	}()
+	if ev != nil {
+		func() {
+			defer func() {
+				if r := recover(); r != nil {
+					*fails = append(*fails, bxvFailure{Kind: "panic", Expr: strconv.Quote(in), Datum: "nil / map", Got: "Evaluate or ExpressionDump panicked on an accepted expression: " + fmt.Sprint(r)})
+				}
+			}()
+			ev.Evaluate(nil)
+			ev.Evaluate(map[string]interface{}{"a": 1, "b": map[string]interface{}{"c": "x"}, "x": map[string]int{"k": 1}})
+			if e, ok := pval.(grammar.Expression); ok {
+				var sb strings.Builder
+				e.ExpressionDump(&sb, "  ", 0)
+			}
+		}()
+	}
+}
+
+func bxvParseCases(fails *[]bxvFailure) int {
+	n := 0
+	// all byte strings of length <= 2
+	bxvParseOne("", fails)
+	n++
+	for a := 0; a < 256; a++ {
+		bxvParseOne(string([]byte{byte(a)}), fails)
+		n++
+		for b := 0; b < 256; b++ {
+			bxvParseOne(string([]byte{byte(a), byte(b)}), fails)
+			n++
+		}
+	}
+	// length 3 over the bytes the grammar mentions + invalid UTF-8 + NUL
+	alpha := []byte("a1 .\"`/()[]{}=!,-_~|:\\\x00\xff\xc3\x28\n\t")
+	for _, a := range alpha {
+		for _, b := range alpha {
+			for _, c := range alpha {
+				bxvParseOne(string([]byte{a, b, c}), fails)
+				n++
+			}
+		}
+	}
+	// token sequences of length <= 3 over the full token alphabet, single-space separated and unseparated
+	for _, a := range bxvTokens {
+		for _, b := range bxvTokens {
+			bxvParseOne(a+" "+b, fails)
+			bxvParseOne(a+b, fails)
+			n += 2
+			for _, c := range bxvTokens {
+				bxvParseOne(a+" "+b+" "+c, fails)
+				n++
+			}
+		}
+	}
+	// statement-shaped inputs with a bad piece
+	for _, s := range []string{`foo == "\\q"`, `foo == "a\\"`, `foo["\\x"] == 1`, "foo == \"\xff\"", "foo == `\xc3\x28`", `"/a/~2" == 1`, `x == "/~"`, "(((((a == 1)))))", "((a == 1)", "a == 1))",
+		"any a as x, x { x == 1 }", "any a as { x == 1 }", "a == 1 and", "not", "a in", "1 in", `a matches "["`, "a is", "a is not", "all a as x {}", "a == 01", "a == 1.", "a == -", `a["b" == 1`} {
+		bxvParseOne(s, fails)
+		n++
+	}
+	return n
+}
+
 func TestBxvBattery(t *testing.T) {
 	prop := os.Getenv("BXV_PROP")
 	out := os.Getenv("BXV_OUT")
@@ -1076,6 +1189,8 @@ func TestBxvBattery(t *testing.T) {
 	case "C17":
 		n += bxvFilterCases(&fails)
 		n += bxvDeterminism(&fails)
+	case "C10":
+		n += bxvParseCases(&fails)
 	case "C12":
 		n += bxvConcurrent(&fails)
 	case "C13":
